@@ -13,7 +13,8 @@ from ..scripted_random import Scripted, bisect_steps
 
 PROPERTY = "C05"
 RULE = ("Hypothesis draws a table of 2..12 factor derivatives (integers, floats over 12 decades, exact zeros, "
-        "near-cancelling pairs; last entry = -fsum(rest) so the table sums to zero within an ulp), an insertion "
+        "near-cancelling pairs; last entry = -fsum(rest) so the table sums to zero within an ulp; in half of the cases the whole table is multiplied by a "
+        "power of two 2^-200..2^200, which keeps entries and sum exact), an insertion "
         "order, a scheme (inside-first, outside-first, ratio) and interior probe draws. For every positive entry as "
         "the active unit the selection is evaluated under a scripted uniform draw; its break points in u are located "
         "by bisection to adjacent floats and integrated exactly. Oracle: sum over active units a of d_a*P(select k|a) "
@@ -57,6 +58,11 @@ def table_case(draw):
     vals.append(last)
     perm = draw(st.permutations(list(range(len(vals)))))
     table = [vals[i] for i in perm]
+    # the statement is about the table whatever its overall scale: derivatives of far-away or weakly charged units are
+    # many orders of magnitude below 1 (a power of two keeps every entry and the zero sum exact)
+    scale_exp = draw(st.one_of(st.just(0), st.just(0), st.integers(-200, 200), st.sampled_from([-52, -53, -60, -80, 60])))
+    if scale_exp:
+        table = [math.ldexp(x, scale_exp) for x in table]
     scheme = draw(st.sampled_from(SCHEMES))
     probes = draw(st.lists(st.one_of(gen.floats(0.0, 1.0), st.sampled_from([0.0, 1.0, 0.5])), min_size=3,
                            max_size=6))
@@ -169,7 +175,9 @@ def body_flow(rec, scheme, table, probes):
                  % scheme, args)
     nt = len(positives) >= 2 and len(negatives) >= 2
     zeros = sum(1 for d in table if d == 0.0)
-    label = "%s/%s%s" % (scheme, "multi" if nt else "simple", "+zeros" if zeros else "")
+    biggest = max(abs(d) for d in table)
+    label = "%s/%s%s%s" % (scheme, "multi" if nt else "simple", "+zeros" if zeros else "",
+                           "/tiny-scale" if biggest < 1e-12 else ("/huge-scale" if biggest > 1e12 else ""))
     rec.case(label, (scheme, tuple(table)), nt, {"scheme": scheme, "table": table, "inflow": inflow,
                                                 "selector_evaluations": total_evals})
 
